@@ -179,6 +179,10 @@ def _decorate_namespace_function(
         base_postconditions = []  # type: List[Contract]
 
         bases_have_func = False
+
+        # True if one of the bases provides the function without any precondition, *i.e.*, accepts all the input
+        base_accepts_all = False
+
         for base in bases:
             if _base_provides(base, key):
                 bases_have_func = True
@@ -194,6 +198,16 @@ def _decorate_namespace_function(
                         base_contract_checker.__postcondition_snapshots__
                     )
                     base_postconditions.extend(base_contract_checker.__postconditions__)
+
+                if (
+                    base_contract_checker is None
+                    or not base_contract_checker.__preconditions__
+                ):
+                    base_accepts_all = True
+
+        # The preconditions of the bases are OR'ed. If one of the bases accepts all the input, so must this function.
+        if base_accepts_all:
+            base_preconditions = []
 
         # Collapse preconditions and postconditions from the bases with the function's own ones
         preconditions = _collapse_preconditions(
@@ -258,6 +272,10 @@ def _decorate_namespace_property(
         base_postconditions = []  # type: List[Contract]
 
         bases_have_func = False
+
+        # True if one of the bases provides the function without any precondition, *i.e.*, accepts all the input
+        base_accepts_all = False
+
         for base in bases:
             if _base_provides(base, key):
                 base_property = getattr(base, key)
@@ -293,6 +311,16 @@ def _decorate_namespace_property(
                         base_contract_checker.__postcondition_snapshots__
                     )
                     base_postconditions.extend(base_contract_checker.__postconditions__)
+
+                if (
+                    base_contract_checker is None
+                    or not base_contract_checker.__preconditions__
+                ):
+                    base_accepts_all = True
+
+        # The preconditions of the bases are OR'ed. If one of the bases accepts all the input, so must this function.
+        if base_accepts_all:
+            base_preconditions = []
 
         # Add preconditions and postconditions of the function
         preconditions = []  # type: List[List[Contract]]
